@@ -16,8 +16,8 @@ func jsonMarshal(v any) ([]byte, error)    { return json.Marshal(v) }
 // See /verif/DESIGN.md section 3.
 var properties = map[string]*Property{
 	"C01": {
-		Rules:      []string{"R-HINT", "R-CTXTYPE", "R-TABLES", "R-CTX-MIRROR", "R-NAMECMP", "R-CTX-KEYS", "R-LIFECYCLE"},
-		Decided:    "the advisory size hint cannot steer which data is encoded (non-interference: hint-derived values reach no branch, loop bound, index or slice bound of the Writer data path); every context key is stored with the type every consumer asserts (no configuration accepted at construction can fail a type assertion at the first block); every codec name accepted at construction has a constructor case in every factory. Encode and decode tasks publish the same context keys (block size for the transform stage, post-transform size for the entropy stage) before creating their codecs. Every context key a codec constructor consults is published on the writing side and on both reading sides, so both build the same codec variant; an empty input still produces a framed stream (header before the empty-buffer return).",
+		Rules:      []string{"R-HINT", "R-CTXTYPE", "R-TABLES", "R-CTX-MIRROR", "R-NAMECMP", "R-CTX-KEYS", "R-LIFECYCLE", "R-MODE-ORDER"},
+		Decided:    "the advisory size hint cannot steer which data is encoded (non-interference: hint-derived values reach no branch, loop bound, index or slice bound of the Writer data path); every context key is stored with the type every consumer asserts (no configuration accepted at construction can fail a type assertion at the first block); every codec name accepted at construction has a constructor case in every factory. Encode and decode tasks publish the same context keys (block size for the transform stage, post-transform size for the entropy stage) before creating their codecs. Every context key a codec constructor consults is published on the writing side and on both reading sides, so both build the same codec variant; an empty input still produces a framed stream (header before the empty-buffer return). In the block tasks the codecs are built from the task's transform/entropy type only after its last assignment.",
 		NotDecided: "byte equality of the round trip, codec correctness, buffer sizing, expansion bounds.",
 	},
 	"C02": {
@@ -36,13 +36,13 @@ var properties = map[string]*Property{
 		NotDecided: "independence from the partition into Write calls (index arithmetic in Writer.Write).",
 	},
 	"C05": {
-		Rules:      []string{"R-TOKEN", "R-OWN", "R-STALE", "R-ERRSTATE", "R-CANCEL", "R-COMPACT", "R-BUF-FRESH"},
-		Decided:    "shared reads happen strictly under the token, none after release; per-task buffers/results are private and read by the parent only after Wait, in index order; the parent reads the buffer the task decoded into; no data from a failed batch is published. Decoded blocks are packed into consecutive buffer slots by a cursor that advances only for delivered blocks; buffer slots are only re-pointed to fresh allocations.",
+		Rules:      []string{"R-TOKEN", "R-OWN", "R-STALE", "R-ERRSTATE", "R-CANCEL", "R-COMPACT", "R-BUF-FRESH", "R-EOS-ONLY"},
+		Decided:    "shared reads happen strictly under the token, none after release; per-task buffers/results are private and read by the parent only after Wait, in index order; the parent reads the buffer the task decoded into; no data from a failed batch is published. Decoded blocks are packed into consecutive buffer slots by a cursor that advances only for delivered blocks; buffer slots are only re-pointed to fresh allocations. A decode task ends cleanly only at the end marker, on cancellation or on a skip (no other silent exit can cut the output short depending on the schedule).",
 		NotDecided: "cursor arithmetic of Reader.Read (consumed/available/bufferThreshold).",
 	},
 	"C06": {
-		Rules:      []string{"R-REFILL", "R-READ-FULL", "R-EOF-AT-END"},
-		Decided:    "source-side clause only: the input bitstream refills its buffer completely (loop or io.ReadFull) so a partial 64-bit word can only occur at end of source, the invariant every bulk read path relies on. Reader.Read returns a short count without error only when the stream ended (the decompressor treats a short read as end of data); every exit of the refill loop is decided by bytes obtained vs requested or by an error. Read answers io.EOF only after the batch function ran in that call and delivered nothing (a zero-length or buffered read never reports end of stream).",
+		Rules:      []string{"R-REFILL", "R-READ-FULL", "R-EOF-AT-END", "R-STALE-SLOT"},
+		Decided:    "source-side clause only: the input bitstream refills its buffer completely (loop or io.ReadFull) so a partial 64-bit word can only occur at end of source, the invariant every bulk read path relies on. Reader.Read returns a short count without error only when the stream ended (the decompressor treats a short read as end of data); every exit of the refill loop is decided by bytes obtained vs requested or by an error. Read answers io.EOF only after the batch function ran in that call and delivered nothing (a zero-length or buffered read never reports end of stream). No buffer index or offset computed before a batch call is reused after it (a Write or Read call that spans a batch boundary addresses the right block buffer).",
 		NotDecided: "Write/Read buffer-length independence (arithmetic); sink-side chunking.",
 	},
 	"C07": {
@@ -51,13 +51,13 @@ var properties = map[string]*Property{
 		NotDecided: "fairness/timing (\"promptly\"); memory-model subtleties beyond all accesses being sync/atomic.",
 	},
 	"C08": {
-		Rules:      []string{"R-PANIC-API", "R-IOERR", "R-EOS-ERR", "R-CLOSE-ORDER", "R-POISON", "R-ERRSTATE"},
-		Decided:    "no declared bitstream panic escapes the Writer/Reader API; no error of the underlying sink/source is dropped; a source error is never turned into a clean end of stream by the refill; closed flags are set only after successful flush/close; a failed write batch cannot be followed by a successful Close.",
+		Rules:      []string{"R-PANIC-API", "R-IOERR", "R-EOS-ERR", "R-CLOSE-ORDER", "R-POISON", "R-ERRSTATE", "R-REFILL", "R-SKIP-ORDER"},
+		Decided:    "no declared bitstream panic escapes the Writer/Reader API; no error of the underlying sink/source is dropped; a source error is never turned into a clean end of stream by the refill; closed flags are set only after successful flush/close; a failed write batch cannot be followed by a successful Close. A block is classified as skipped only after its payload was read, so a source failure inside a skipped block is still an error.",
 		NotDecided: "counter restoration arithmetic in DefaultOutputBitStream.Close.",
 	},
 	"C09": {
-		Rules:      []string{"R-EOS-ONLY", "R-EOS-ERR", "R-CLOSE-ORDER", "R-PANIC-API", "R-ERRSTATE", "R-BATCH-ONLY", "R-EOF-AT-END"},
-		Decided:    "the only clean exits of a decode task are cancel, end marker, range skip and normal completion; exhausting the source is an error (panic) that the recovering frames turn into a reported error; the writer emits the end marker on every successful close. The Reader's batch function reports success only after a batch of tasks ran (which ends only at the end marker) or after a cancellation; io.EOF is produced only behind that.",
+		Rules:      []string{"R-EOS-ONLY", "R-EOS-ERR", "R-CLOSE-ORDER", "R-PANIC-API", "R-ERRSTATE", "R-BATCH-ONLY", "R-EOF-AT-END", "R-CANCEL"},
+		Decided:    "the only clean exits of a decode task are cancel, end marker, range skip and normal completion; exhausting the source is an error (panic) that the recovering frames turn into a reported error; the writer emits the end marker on every successful close. The Reader's batch function reports success only after a batch of tasks ran (which ends only at the end marker) or after a cancellation; io.EOF is produced only behind that. The exit handler of a decode task turns every recovered panic, whatever its dynamic type, into a task error.",
 		NotDecided: "bit-level behaviour of the partial last word in pull().",
 	},
 	"C10": {
@@ -81,8 +81,8 @@ var properties = map[string]*Property{
 		NotDecided: "in-bounds output and inverse exactness (numeric).",
 	},
 	"C14": {
-		Rules:      []string{"R-BS-CLOSED", "R-BITCOUNT"},
-		Decided:    "closed bitstreams refuse further operations (Close stores the closed state; every operation that touches the buffer tests it first). Counter clause, by an affine-equality analysis of the methods: the value returned by Written()/Read() advances by exactly the bit count of WriteBits, WriteArray, ReadBit and ReadBits and these return that count; flush, refill, HasMoreToRead and both Close methods conserve it at every return; a failed Close of the writer restores every integer field.",
+		Rules:      []string{"R-BS-CLOSED", "R-BITCOUNT", "R-REFILL"},
+		Decided:    "closed bitstreams refuse further operations (Close stores the closed state; every operation that touches the buffer tests it first). Counter clause, by an affine-equality analysis of the methods: the value returned by Written()/Read() advances by exactly the bit count of WriteBits, WriteArray, ReadBit and ReadBits and these return that count; flush, refill, HasMoreToRead and both Close methods conserve it at every return; a failed Close of the writer restores every integer field. The reader refills completely (a partial 64-bit word only at the end of the source), which the bulk read paths rely on.",
 		NotDecided: "the values read back and the byte image (bit arithmetic); the counter clause for WriteBit and ReadArray (they depend on inequality invariants the affine domain cannot express); guards are ignored, so a wrong loop bound is not seen.",
 		Assumptions: []string{"integer arithmetic in the bitstreams does not wrap", "a signed residual counter tested against 0 is never negative (A4)", "a unit-step counting loop exits exactly at its bound (A5)"},
 	},
